@@ -18,6 +18,7 @@ type ev struct {
 	Rt   uint64 `json:"rt_ms,omitempty"`   // breaker: response time (clock advance between entry and exit)
 	Hold bool   `json:"hold,omitempty"`    // hotspot: the entry stays open
 	Rel  bool   `json:"release,omitempty"` // hotspot: no request; the oldest open entry exits
+	On2  bool   `json:"on_referenced_resource,omitempty"` // flow: the request goes to the resource the subject rule refers to
 }
 
 // dec is one observed decision.
@@ -52,6 +53,9 @@ type kit[T any] struct {
 	// genRule: a valid rule of a strategy no built-in generator serves; the harness registers a
 	// generator for it (once per process) that runs genAct when it is called and yields no controller
 	genRule func(res string) *T
+	// refLoads: the subject rule reads the statistics of the second resource (an associated-resource rule):
+	// the reloads then also load / clear the rules of THAT resource through the per-resource path
+	refLoads func(u *T) bool
 }
 
 
@@ -121,14 +125,37 @@ func genMeta[T any](kt *kit[T], r *rng.R, id int, suffix string) metaScen[T] {
 		}
 		return out
 	}
-	add := func(final bool, gen string) {
+	add := func(final bool, gen string) (genApplied bool) {
 		k := len(sc.Case.Ops)
+		refKind := kt.refLoads != nil && kt.refLoads(u)
+		if k > 0 && refKind && r.Chance(1, 2) {
+			// the rules of the REFERENCED resource are loaded (a random part of its permissive rules) or
+			// cleared (empty list) through the per-resource path; the subject rule is not in the load at all
+			o := rulesh.Op[T]{Kind: "res", Res: 2}
+			if r.Chance(1, 2) {
+				for i, t := range other {
+					if r.Bool() {
+						o.Rules = append(o.Rules, cloneID(m, t, k, i))
+					}
+				}
+			}
+			sc.Case.Ops = append(sc.Case.Ops, o)
+			return false
+		}
 		whole := r.Chance(1, 2)
+		if k == 0 && refKind {
+			whole = true // the referenced resource starts with rules of its own (there is something to clear)
+		}
 		o := rulesh.Op[T]{Kind: "res", Res: 1}
 		if whole {
 			o = rulesh.Op[T]{Kind: "all"}
 		}
 		o.Rules = mkList(k, final, whole)
+		if k == 0 && refKind {
+			for i, t := range other {
+				o.Rules = append(o.Rules, cloneID(m, t, k, 50+i))
+			}
+		}
 		if gen != "" {
 			// the rule served by the harness-registered generator, somewhere in the list
 			g := cloneID(m, kt.genRule(res), k, 90)
@@ -137,6 +164,7 @@ func genMeta[T any](kt *kit[T], r *rng.R, id int, suffix string) metaScen[T] {
 			o.Gen = gen
 		}
 		sc.Case.Ops = append(sc.Case.Ops, o)
+		return gen != ""
 	}
 	add(true, "")
 	sc.SegAfter = append(sc.SegAfter, segs[0])
@@ -171,8 +199,8 @@ func genMeta[T any](kt *kit[T], r *rng.R, id int, suffix string) metaScen[T] {
 			k := len(sc.Case.Ops)
 			// the list left in force by the burst is that of its last load that does not fail; a
 			// load with in-generator traffic is followed by traffic of its own
-			add(b >= lastEff || modes[b] == "traffic", modes[b])
-			if modes[b] == "traffic" {
+			applied := add(b >= lastEff || modes[b] == "traffic", modes[b])
+			if modes[b] == "traffic" && applied {
 				sc.InGenOf[k] = s
 				sc.JRand[k] = 1 + r.Intn(3)
 			}
